@@ -621,8 +621,8 @@ Proof.
     (* the column of [o] *)
     assert (Hcol : column_values e dt (map (fun pr => fst pr ++ enc_row e (o :: suf) (snd pr)) prows) pos sz
                    = map (hd []) (map snd prows)).
-    { unfold column_values. rewrite !map_map. apply map_ext_in. intros pr Hin.
-      destruct (Hshape pr Hin) as [v [vs [Hs [Hv [_ Hp]]]]]. cbv beta. rewrite Hs. cbn [hd].
+    { unfold column_values. rewrite !map_map. apply map_ext_in. intros [p r] Hin.
+      destruct (Hshape _ Hin) as [v [vs [Hs [Hv [_ Hp]]]]]. cbn [fst snd] in *. subst r. cbn [hd].
       unfold enc_row. cbn [combine flat_map fst snd]. unfold dtype_or0 at 1. rewrite Hdt.
       rewrite <- Hp, drop_app_exact.
       rewrite <- Hv, <- (store_value_blen e dt v), take_app_exact. apply store_then_canon. }
@@ -632,17 +632,16 @@ Proof.
                     (fst pr ++ store_value e dt (hd [] (snd pr)), tl (snd pr))).
     assert (Hrows' : map (fun pr => fst pr ++ enc_row e (o :: suf) (snd pr)) prows
                      = map (fun pr => fst pr ++ enc_row e suf (snd pr)) (map shift prows)).
-    { rewrite map_map. apply map_ext_in. intros pr Hin.
-      destruct (Hshape pr Hin) as [v [vs [Hs _]]]. unfold shift. cbv beta. rewrite Hs. cbn [hd tl fst snd].
+    { rewrite map_map. apply map_ext_in. intros [p r] Hin.
+      destruct (Hshape _ Hin) as [v [vs [Hs _]]]. unfold shift. cbn [fst snd] in *. subst r. cbn [hd tl].
       unfold enc_row. cbn [combine flat_map fst snd]. unfold dtype_or0 at 1. rewrite Hdt.
       rewrite <- app_assoc. reflexivity. }
     rewrite Hrows'. rewrite (IH (map shift prows) (pos + sz)).
-    + cbn [cols_of]. rewrite <- app_assoc. cbn [app]. do 3 f_equal.
-      rewrite !map_map. apply map_ext. intros pr. reflexivity.
+    + cbn [cols_of]. rewrite <- app_assoc. cbn [app]. rewrite !map_map. reflexivity.
     + exact Hsz'.
     + apply Forall_forall. intros pr' Hin'. apply in_map_iff in Hin'.
-      destruct Hin' as [pr [<- Hin]]. destruct (Hshape pr Hin) as [v [vs [Hs [Hv [Hvs Hp]]]]].
-      unfold shift. rewrite Hs. cbn [hd tl fst snd]. split; [|exact Hvs].
+      destruct Hin' as [[p r] [<- Hin]]. destruct (Hshape _ Hin) as [v [vs [Hs [Hv [Hvs Hp]]]]].
+      unfold shift. cbn [fst snd] in *. subst r. cbn [hd tl]. split; [|exact Hvs].
       rewrite blen_app, store_value_blen. lia.
     + rewrite map_app. exact Hnd.
 Qed.
@@ -687,11 +686,18 @@ Proof.
   { unfold enc_rows. rewrite flat_map_concat_map. apply items_roundtrip; [exact Hw|].
     apply Forall_map. eapply Forall_impl; [|exact Hrows]. intros row. apply enc_row_blen. }
   rewrite Hitems.
-  pose proof (interleaved_columns_gen e objs (map (fun r => ([], r)) rows) 0 []) as Hcols.
-  rewrite !map_map in Hcols. cbn [fst snd app map] in Hcols. rewrite map_id in Hcols.
-  rewrite Hcols; [reflexivity|exact Hsz| |exact Hnd].
-  apply Forall_map. eapply Forall_impl; [|exact Hrows].
-  intros row Hrow. cbn [fst snd]. split; [reflexivity|exact Hrow].
+  assert (Hcols : interleaved_columns e objs (map (enc_row e objs) rows) 0 [] = Ok (cols_of objs rows)).
+  { replace (map (enc_row e objs) rows)
+      with (map (fun pr : bytes * list bytes => fst pr ++ enc_row e objs (snd pr))
+                (map (fun r : list bytes => (@nil byte, r)) rows))
+      by (rewrite map_map; reflexivity).
+    rewrite interleaved_columns_gen.
+    - rewrite map_map. cbn [snd app]. rewrite map_id. reflexivity.
+    - exact Hsz.
+    - apply Forall_map. eapply Forall_impl; [|exact Hrows].
+      intros row Hrow. cbn [fst snd]. split; [reflexivity|exact Hrow].
+    - exact Hnd. }
+  rewrite Hcols. reflexivity.
 Qed.
 
 (* TdmsSegment.read_raw_data for an interleaved segment *)
@@ -722,10 +728,40 @@ Example read_interleaved_example :
                 [hex "0506"; hex "3132333435363738"; hex "01"] ] in
   let s := mkSeg 0 (2 + 4 + 8 + 32 + 64) 0 0 false [a; b; c] [] 1 None in
   enc_rows BE [a; b; c] rows =
-    hex "02011413121118171615010403242322212827262500060534333231383736350 1" /\
+    hex "020114131211181716150104032423222128272625000605343332313837363501" /\
   read_segment_chunks s (enc_rows BE [a; b; c] rows ++ hex "bbcc")%list =
     Ok ([ [(hex "2f2761", CData [hex "0102"; hex "0304"; hex "0506"]);
            (hex "2f2762", CData [hex "1112131415161718"; hex "2122232425262728"; hex "3132333435363738"]);
            (hex "2f2763", CData [hex "01"; hex "00"; hex "01"])] ], hex "bbcc").
 Proof. vm_compute. split; reflexivity. Qed.
 End Ex5.
+
+(* ---- C15: both encodings of the same content decode alike ---------------------- *)
+
+Lemma read_values_any_endian e e' n o vs rest :
+  vals_ok n o vs ->
+  read_values e o n (enc_obj e o vs ++ rest) = read_values e' o n (enc_obj e' o vs ++ rest).
+Proof. intros H. rewrite !read_values_roundtrip by exact H. reflexivity. Qed.
+
+Lemma read_contig_chunk_any_endian e e' ci nchunks final ovs rest :
+  Forall (fun ov => vals_ok (chunk_nvals (fst ov) ci nchunks final) (fst ov) (snd ov)) ovs ->
+  NoDup (map (fun ov => so_path (fst ov)) ovs) ->
+  read_contig_chunk e (map fst ovs) ci nchunks final (enc_chunk e ovs ++ rest) []
+  = read_contig_chunk e' (map fst ovs) ci nchunks final (enc_chunk e' ovs ++ rest) [].
+Proof.
+  intros H1 H2. rewrite !read_contig_chunk_roundtrip_final by assumption. reflexivity.
+Qed.
+
+Lemma read_interleaved_any_endian e e' objs nchunks nv rows rest :
+  objs <> [] ->
+  Forall (fun o => so_nvals o = nv) objs ->
+  Forall (fun o => sized o <> None) objs ->
+  NoDup (map so_path objs) ->
+  Forall (row_ok objs) rows ->
+  nv * nchunks = Z.of_nat (length rows) ->
+  read_interleaved e objs nchunks (enc_rows e objs rows ++ rest)
+  = read_interleaved e' objs nchunks (enc_rows e' objs rows ++ rest).
+Proof.
+  intros H1 H2 H3 H4 H5 H6.
+  rewrite !(read_interleaved_roundtrip _ objs nchunks nv rows rest) by assumption. reflexivity.
+Qed.
